@@ -167,11 +167,17 @@ def judge(ex, wrapper, ref_nm):
     # which message was in flight when an interruption took effect
     last_msg = None
     inflight = set()
+    inflight_norewind = set()   # ... while the plan had switched rewinding off: the engine has nothing to replay
+    rw = True
     for i, e in enumerate(log):
         if e[0] == "msg":
             last_msg = e[1]
+            if e[1].command == "rewindable" and e[1].args and e[1].args[0] is not None:
+                rw = bool(e[1].args[0])
         elif e[0] == "state" and e[1] in ("pausing", "suspending") and last_msg is not None:
             inflight.add(id(last_msg))
+            if not rw:
+                inflight_norewind.add(id(last_msg))
     for i, e in enumerate(log):
         if e[0] == "plan" and e[1] == "yield":
             yields[e[3]] = e[4]
@@ -219,6 +225,8 @@ def judge(ex, wrapper, ref_nm):
             if bad:
                 stale = id(m) in inflight and r is None
                 tag = f"stale-None-after-interrupted-command:{cmd}" if stale else f"wrong-response:{cmd}"
+                if stale and id(m) in inflight_norewind:
+                    tag = f"interrupted-command-dropped-while-not-rewindable:{cmd}"
                 problems.append((tag, f"yield {e[3]} {cmd}({getattr(m.obj, 'name', None)}): {bad}"))
     # return values of the public calls
     uids = []
